@@ -295,6 +295,98 @@ fn router_world(ctx: &mut Ctx) {
     ctx.check_panics();
 }
 
+
+/// A routed send is abandoned while it is suspended in the write (the destination is not reading):
+/// the peer stays a peer - it is still labelled, and a later send to its identity reaches it, after
+/// whatever part of the abandoned message had already been accepted for it; the other peer gets nothing.
+fn router_abandoned_send(ctx: &mut Ctx) {
+    world::swarm(ctx, SwarmOpts { small_caps: false, ..Default::default() });
+    let k = 1 + ctx.plan(3) as u32;
+    let big_len = ctx.plan_pick(&[3_000usize, 20_000, 70_000, 200_000]);
+    let cap = ctx.plan_pick(&[256usize, 1_000, 9_000]);
+    let viol: Rc<RefCell<Vec<(&'static str, String)>>> = Rc::new(RefCell::new(Vec::new()));
+    let done = Rc::new(RefCell::new(false));
+    let (vl, dn) = (viol.clone(), done.clone());
+    rt::task::spawn_local("app", async move {
+        let mut router = RouterSocket::new();
+        let ep = router.bind("tcp://127.0.0.1:0").await.expect("bind").to_string();
+        let mut alice = RawPeer::connect(&ep).expect("connect");
+        let _ = alice.hello("DEALER", Some(b"alice")).await;
+        let mut bob = RawPeer::connect(&ep).expect("connect");
+        let _ = bob.hello("DEALER", Some(b"bob")).await;
+        rt::task::idle().await;
+        // alice stops reading
+        alice.conn.set_auto_drain(1, false);
+        alice.conn.set_cap(1, cap);
+        let big = tagged(7, 0, &[big_len]);
+        let mut m = vec![b"alice".to_vec()];
+        m.extend(big.iter().cloned());
+        let first = rt::future::or_idle(rt::future::poll_budget(router.send(to_zmq(&m)), k)).await.flatten();
+        let abandoned = first.is_none();
+        if abandoned {
+            rt::count("probe_routed_send_abandoned_under_back_pressure");
+        }
+        // she is still heard and labelled
+        let _ = alice.send_msg(&tagged(1, 0, &[3])).await;
+        match rt::future::or_idle(router.recv()).await {
+            Some(Ok(msg)) => {
+                let f = from_zmq(&msg);
+                if f.first().map(|l| &l[..]) != Some(&b"alice"[..]) {
+                    vl.borrow_mut().push(("label_not_announced_identity", format!("after an abandoned send to her, alice's message is labelled {}", hex(f.first().map(|l| &l[..]).unwrap_or(&[])))));
+                }
+            }
+            other => vl.borrow_mut().push(("inbound_lost_after_abandoned_send", format!("alice's message was not delivered after an abandoned send to her: {:?}", other.map(|r| r.map(|m| show_msg(&from_zmq(&m))).map_err(|e| e.to_string()))))),
+        }
+        // she reads again; a later send to her identity must reach her
+        alice.conn.set_cap(1, 1 << 40);
+        alice.conn.set_auto_drain(1, true);
+        rt::task::idle().await;
+        let tail = tagged(8, 0, &[5]);
+        let mut m2 = vec![b"alice".to_vec()];
+        m2.extend(tail.iter().cloned());
+        if let Err(e) = router.send(to_zmq(&m2)).await {
+            vl.borrow_mut().push(("send_to_connected_peer_failed", format!("ROUTER: a send of {big_len} bytes to 'alice' was abandoned after {k} poll(s) under back-pressure ({}); she is still connected and heard, yet the next send to her identity failed: {e}", if abandoned { "pending" } else { "it had completed" })));
+            *dn.borrow_mut() = true;
+            return world::park().await;
+        }
+        rt::task::idle().await;
+        let p = alice.inbound();
+        let got = p.messages();
+        let ok = match got.len() {
+            1 => got[0] == tail,
+            2 => got[0] == big && got[1] == tail,
+            _ => false,
+        };
+        if p.error.is_some() || !ok {
+            vl.borrow_mut().push(("routed_bytes_wrong", format!("ROUTER: after an abandoned send, alice's connection carries {:?} (stream error {:?}); expected [the abandoned message, whole,] then the later one", got.iter().map(|m| show_msg(m)).collect::<Vec<_>>(), p.error)));
+        }
+        if !bob.inbound().messages().is_empty() {
+            vl.borrow_mut().push(("routed_to_other_peer", "bob received something addressed to alice".into()));
+        }
+        *dn.borrow_mut() = true;
+        world::park().await;
+        drop(router);
+        drop(alice);
+        drop(bob);
+    });
+    let end = ctx.sim.run(400_000);
+    if end == rt::RunEnd::Budget {
+        ctx.violation("no_quiescence", "ROUTER abandoned send: no quiescence".into());
+    }
+    ctx.check_panics();
+    for (c, d) in viol.borrow().clone() {
+        ctx.violation(c, d);
+    }
+    if *done.borrow() {
+        ctx.nontrivial();
+    } else if end == rt::RunEnd::Quiescent && ctx.sim.rt.panics.borrow().is_empty() && viol.borrow().is_empty() {
+        ctx.violation("stuck", "ROUTER abandoned send: the scenario never completed".into());
+    }
+    if ctx.want_sample {
+        ctx.out.sample = Some(format!("ROUTER: send of {big_len} bytes to a peer that accepts {cap}, abandoned after {k} polls; then a later send to the same identity"));
+    }
+}
+
 pub fn def() -> PropDef {
     PropDef {
         id: "C09",
@@ -303,6 +395,7 @@ pub fn def() -> PropDef {
         assumptions: &["announced identities are unique (the generator never duplicates them)", "single-frame sends are outside the statement (the socket asserts on them)", "a departed peer is used as a target only once its connection is closed"],
         strata: vec![
             Stratum { name: "router_world", quick: 120_000, thorough: (2_000_000) * 5, exhaustive: (false, false), run: router_world, what: "labelling of inbound messages and routing of outbound ones, checked on connection taps" },
+            Stratum { name: "router_abandoned_send", quick: 20_000, thorough: 1_000_000, exhaustive: (false, false), run: router_abandoned_send, what: "a routed send abandoned under back-pressure: the peer stays labelled and routable, its stream stays whole, nobody else gets the bytes" },
             Stratum { name: "rejoin_routable", quick: 9_600, thorough: 800_000, exhaustive: (false, false), run: super::c16::rejoin_routable, what: "a peer that comes back under its announced identity (16 departure/rejoin histories) stays labelled with it and routable, also after further recv calls" },
         ],
     }
